@@ -25,6 +25,8 @@ mod c03;
 mod gen_schema_text;
 mod c09;
 mod c18;
+mod gen_schema_chain;
+mod c16;
 
 use out::Out;
 
@@ -83,6 +85,7 @@ fn main() {
                 "c03" => c03::run(&args, &mut out),
                 "c09" => c09::run(&args, &mut out),
                 "c18" => c18::run(&args, &mut out),
+                "c16" => c16::run(&args, &mut out),
                 s => { eprintln!("unknown stream {s}"); std::process::exit(2); }
             }
             out.write(&args.out);
